@@ -8,6 +8,7 @@ import sympy as sp
 from ptstat.world import mass_sym
 
 from ptstat import AnalysisError, algebra
+from ptstat.symval import SymRaise
 from ptstat.taint import tainted_names, reductions_over
 from spec import neutron as spec
 from .common import eq, fsite, folder, _s, constants_lint
@@ -178,7 +179,41 @@ def run(ctx):
     N = sp.Symbol("N", positive=True)
     B = sp.Symbol("B", complex=True)
     ss = sp.Symbol("sigma_s", nonnegative=True)
-    kout = spec.unpack(I.call(kern, [N, lam, B, ss], {}))
+    # the kernel's parameters are identified by what neutron_scattering hands them (not by position or name):
+    # the wavelength itself, the only argument that scales with the density, the complex sum of b_c, the sum of sigma_s
+    kq = callees[0]
+    ksig = [a.arg for a in ctx.src.func(kq).node.args.args]
+    seen_call = {}
+
+    def spy(I_, args, kw):
+        bound = dict(zip(ksig, args)); bound.update(kw)
+        seen_call.update(bound)
+        raise SymRaise("StopIteration", "kernel reached")
+    I.stubs[kq] = spy
+    try:
+        I.call(ns, [dict(comp)], {"density": rho, "wavelength": lam})
+    except SymRaise:
+        pass
+    finally:
+        del I.stubs[kq]
+    roles = {}
+    for pname, val in seen_call.items():
+        try:
+            e = sp.sympify(val)
+        except Exception:
+            continue
+        names = {str(x) for x in e.free_symbols}
+        if e == lam:
+            roles["wavelength"] = pname
+        elif "rho" in names:
+            roles["number_density"] = pname
+        elif any(n.startswith(("br_", "bi_")) for n in names):
+            roles["b_c"] = pname
+        elif any(n.startswith("s_") for n in names):
+            roles["sigma_s"] = pname
+    if set(roles) != {"wavelength", "number_density", "b_c", "sigma_s"}:
+        raise AnalysisError(f"cannot identify the arguments neutron_scattering passes to {kq}: {sorted(roles)} of {ksig}")
+    kout = spec.unpack(I.call(kern, [], {roles["number_density"]: N, roles["wavelength"]: lam, roles["b_c"]: B, roles["sigma_s"]: ss}))
     for k in ("sld_im", "sld_inc", "coh_xs", "abs_xs", "inc_xs", "penetration"):
         ctx.check(algebra.nonneg(kout[k]), "R6", f"{k} >= 0 for positive number density and wavelength, any complex b_c",
                   f"sign of {_s(kout[k], 160)} is not determined by abs/max/squares", fsite(ctx, callees[0]),
